@@ -38,6 +38,7 @@ fn main() {
         verif_dir: PathBuf::from("/verif"),
         write_evidence: true,
         only_run: None,
+        exhaust: std::env::var("VERIF_EXHAUST").is_ok(),
     };
     let mut tier_from_arg = None;
     let mut i = 2;
